@@ -34,6 +34,10 @@ CHECKS = {
          "Generated table-driven systems with every actor wrapped in each adapter; the unwrapping projection must be a bisimulation onto the reference interpreter of the unwrapped system (every reachable state and action within a bound); all executions of scripted Vec clients against the script-prefix law.",
          "Trusted: reference interpreter (validated against the unwrapped actors by C06).",
          "property-based testing (proptest): differential/bisimulation check against a reference interpreter", "DESIGN.md section 5 / C15"),
+ "C16": ("exploration",
+         "Generated systems of link-wrapped scripted actors on lossy/duplicating/reordering networks; every reachable state within a network-size boundary is enumerated and the handed-over sequence of each (sender, receiver) pair is compared with the emitted sequence (prefix, exactly once, completeness when nothing is pending or in flight). One open known finding (overtaking), excluded by signature so the search continues behind it.",
+         "Trusted: the prefix/completeness oracle; reads link state through the cfg-guarded accessors (hook H5). Bounded retransmission.",
+         "property-based generation of systems + exhaustive bounded state enumeration with an invariant oracle", "DESIGN.md section 5 / C16"),
  "C14": ("exploration",
          "As C08 without real-time precedence for the sequential-consistency tester, plus lin => sc on every history and clone discipline of both testers.",
          "Trusted: brute-force oracle. Bounded history size.",
